@@ -502,3 +502,58 @@ func VerifC03_ExplicitNil() {
 }
 
 func init() { verifRegister("VerifC03_ExplicitNil", VerifC03_ExplicitNil) }
+
+// struct-mapped object with a non-pointer treat-empty-as-default field that other properties' rules refer to:
+// an empty value is absence for every rule, in Unserialize, Validate and Serialize alike
+type verifC03EAD struct {
+	Name  string  `json:"name"`
+	Alias *string `json:"alias"`
+	Other *int64  `json:"other"`
+}
+
+func init() { verifRegister("VerifC03_EmptyAsDefaultStruct", VerifC03_EmptyAsDefaultStruct) }
+
+func VerifC03_EmptyAsDefaultStruct() {
+	o := NewStructMappedObjectSchema[verifC03EAD]("D", map[string]*PropertySchema{
+		"name":  NewPropertySchema(NewStringSchema(nil, nil, nil), nil, false, nil, nil, nil, nil, nil).TreatEmptyAsDefaultValue(),
+		"alias": NewPropertySchema(NewStringSchema(nil, nil, nil), nil, false, nil, nil, []string{"name"}, nil, nil),
+		"other": NewPropertySchema(NewIntSchema(nil, nil, nil), nil, false, []string{"name"}, nil, nil, nil, nil),
+	})
+	name := nondetStringFrom("name", "", "n")
+	hasAlias, hasOther := nondetBool("hasAlias"), nondetBool("hasOther")
+	nameSet := name != ""
+	ok := !(hasAlias && nameSet) && (!nameSet || hasOther)
+	op := nondetChoice("op", 3)
+	var err error
+	if op == 0 {
+		raw := map[string]any{}
+		if nondetBool("nameKey") || nameSet {
+			raw["name"] = name
+		}
+		if hasAlias {
+			raw["alias"] = "al"
+		}
+		if hasOther {
+			raw["other"] = nondetInt64("other")
+		}
+		_, err = o.Unserialize(raw)
+	} else {
+		v := verifC03EAD{Name: name}
+		if hasAlias {
+			al := "al"
+			v.Alias = &al
+		}
+		if hasOther {
+			ot := nondetInt64("other")
+			v.Other = &ot
+		}
+		if op == 1 {
+			err = o.Validate(v)
+		} else {
+			_, err = o.Serialize(v)
+		}
+	}
+	verifAssert("C03/ead-struct/accepted-iff-rules-hold-with-empty-as-absent", (err == nil) == ok)
+	verifObserve("accepted", err == nil)
+	verifReach("C03/ead-struct/end")
+}
